@@ -364,6 +364,31 @@ func TestC20_SuccessHeaders(t *testing.T) {
 			check(fmt.Sprintf("authorize-writer-%s-with-handler-header-%s", map[fosite.ResponseModeType]string{fosite.ResponseModeDefault: "default"}[mode]+string(mode), strings.ToLower(hdr[0])), rw.Header())
 		}
 	}
+	// an operator's response-mode extension renders the payload in its own way; the documented contract is that
+	// the no-store / no-cache headers are already set when it is called (success and error alike)
+	{
+		ext := &c20ModeExt{}
+		w2 := h.NewWorld(h.Spec{RefreshScopes: []string{}, Mutate: func(c *fosite.Config) { c.ResponseModeHandlerExtension = ext }})
+		for _, kind := range []string{"response", "error"} {
+			ru, _ := url.Parse(redirectURI)
+			areq := fosite.NewAuthorizeRequest()
+			areq.RedirectURI = ru
+			areq.ResponseMode = fosite.ResponseModeType("jwt")
+			areq.State = "state-0123456789"
+			rw := httptest.NewRecorder()
+			if kind == "response" {
+				aresp := fosite.NewAuthorizeResponse()
+				aresp.AddParameter("code", "some-code")
+				w2.P.WriteAuthorizeResponse(context.Background(), rw, areq, aresp)
+			} else {
+				w2.P.WriteAuthorizeError(context.Background(), rw, areq, fosite.ErrInvalidScope.WithHint("scope not allowed"))
+			}
+			if ext.calls == 0 {
+				t.Fatalf("VERIF-INFRA: the response-mode extension was not called for the %s", kind)
+			}
+			check("authorize-"+kind+"-through-response-mode-extension", rw.Header())
+		}
+	}
 	check("introspection", w.IntrospectEndpoint(url.Values{"token": {tr.Access}}, w.BasicFor("A")).Header)
 	check("introspection-inactive", w.IntrospectEndpoint(url.Values{"token": {"nope"}}, w.BasicFor("A")).Header)
 	check("par", w.PAR(url.Values{"client_id": {"A"}, "response_type": {"code"}, "state": {"state-0123456789"}, "redirect_uri": {redirectURI}}, w.BasicFor("A")).Header)
@@ -371,6 +396,167 @@ func TestC20_SuccessHeaders(t *testing.T) {
 	check("revocation", w.Revoke(url.Values{"token": {tr.Access}}, w.BasicFor("A")).Header)
 	check("token-error", w.Token(url.Values{"grant_type": {"password"}, "username": {"peter"}, "password": {"wrong"}}, w.BasicFor("A"), h.TokenOpts{}).Header)
 	check("device-error", w.DeviceAuth(url.Values{"client_id": {"A"}, "scope": {"nope"}}, w.BasicFor("A"), h.Consent{}).Header)
+	h.MarkCompleted()
+}
+
+// c20ModeExt is an operator's response-mode extension ("jwt") that only renders the payload.
+type c20ModeExt struct{ calls int }
+
+func (e *c20ModeExt) ResponseModes() fosite.ResponseModeTypes {
+	return fosite.ResponseModeTypes{fosite.ResponseModeType("jwt")}
+}
+func (e *c20ModeExt) WriteAuthorizeResponse(_ context.Context, rw http.ResponseWriter, ar fosite.AuthorizeRequester, resp fosite.AuthorizeResponder) {
+	e.calls++
+	rw.Header().Set("Location", ar.GetRedirectURI().String()+"?response=payload")
+	rw.WriteHeader(http.StatusSeeOther)
+}
+func (e *c20ModeExt) WriteAuthorizeError(_ context.Context, rw http.ResponseWriter, ar fosite.AuthorizeRequester, err error) {
+	e.calls++
+	rw.Header().Set("Location", ar.GetRedirectURI().String()+"?response=error-payload")
+	rw.WriteHeader(http.StatusSeeOther)
+}
+
+// ---------------------------------------------------------------------------
+// Part A3: what a failing storage call says stays internal. A storage error text (host names, users, SQL) is
+// internal debug detail wherever the handler puts it: with exposure off it must not reach any response.
+
+func TestC20_StorageErrorsStayInternal(t *testing.T) {
+	h.SetProperty("C20")
+	selfTest(t)
+	methods := []string{"GetClient", "GetAuthorizeCodeSession", "InvalidateAuthorizeCodeSession", "CreateAuthorizeCodeSession", "CreateAccessTokenSession", "GetAccessTokenSession", "DeleteAccessTokenSession",
+		"CreateRefreshTokenSession", "GetRefreshTokenSession", "DeleteRefreshTokenSession", "RotateRefreshToken", "RevokeRefreshToken", "RevokeAccessToken",
+		"CreateOpenIDConnectSession", "GetOpenIDConnectSession", "DeleteOpenIDConnectSession", "CreatePKCERequestSession", "GetPKCERequestSession", "DeletePKCERequestSession",
+		"CreateDeviceAuthSession", "GetDeviceCodeSession", "InvalidateDeviceCodeSession", "CreatePARSession", "GetPARSession", "DeletePARSession", "Authenticate", "BeginTX", "Commit", "Rollback"}
+	rapid.Check(t, func(rt *rapid.T) {
+		h.ClockReset()
+		expose := rapid.IntRange(0, 3).Draw(rt, "exposeDebug") == 0
+		legacy := rapid.Bool().Draw(rt, "legacyFormat")
+		store := rapid.SampledFrom([]string{"mem", "tx"}).Draw(rt, "store")
+		w := h.NewWorld(h.Spec{Store: store, RefreshScopes: []string{}, Mutate: func(c *fosite.Config) {
+			c.SendDebugMessagesToClients = expose
+			c.UseLegacyErrorFormat = legacy
+		}})
+		cl := stdClient("A", false)
+		cl.Secret = w.HashSecret("sA")
+		w.AddClient(cl, "sA")
+		w.AddUser("peter", "pw")
+		auth := w.BasicFor("A")
+		canary := "CANARY" + rapid.StringMatching("[a-z]{10}").Draw(rt, "canary")
+		failing := rapid.SampledFrom(methods).Draw(rt, "failingMethod")
+		storageErr := errors.New("pq: dial tcp 10.1.2.3:5432 connect refused user=fosite_rw " + canary)
+		scenario := rapid.SampledFrom([]string{"redeem", "replay-code", "refresh", "replay-refresh", "revoke", "introspect", "device-poll", "device-replay", "par-push", "par-use", "authorize-code", "authorize-hybrid", "password", "client_credentials"}).Draw(rt, "scenario")
+		verifier := "c20-verifier-" + strings.Repeat("v", 40)
+		authz := func(rtype string) *h.AuthzResult {
+			return w.Authorize(url.Values{"client_id": {"A"}, "response_type": {rtype}, "state": {"state-0123456789"}, "nonce": {"nonce-0123456789"}, "redirect_uri": {redirectURI}, "scope": {"openid offline a"}, "code_challenge": {h.PKCES256(verifier)}, "code_challenge_method": {"S256"}}, h.Consent{})
+		}
+		redeem := func(code string) *h.TokenResult {
+			return w.Token(url.Values{"grant_type": {"authorization_code"}, "code": {code}, "redirect_uri": {redirectURI}, "code_verifier": {verifier}}, auth, h.TokenOpts{})
+		}
+		// fault-free preparation, then the observed request with the chosen storage method failing
+		var final func() (string, []byte, http.Header, string)
+		tokenOut := func(tr *h.TokenResult) (string, []byte, http.Header, string) {
+			return tr.Err.String(), tr.Body, tr.Header, ""
+		}
+		authzOut := func(ar *h.AuthzResult) (string, []byte, http.Header, string) {
+			return ar.Err.String(), ar.Body, ar.Header, ar.Location
+		}
+		switch scenario {
+		case "redeem":
+			code := authz("code").Code
+			final = func() (string, []byte, http.Header, string) { return tokenOut(redeem(code)) }
+		case "replay-code":
+			code := authz("code").Code
+			redeem(code)
+			final = func() (string, []byte, http.Header, string) { return tokenOut(redeem(code)) }
+		case "refresh", "replay-refresh":
+			tr := redeem(authz("code").Code)
+			rtok := tr.Refresh
+			if scenario == "replay-refresh" {
+				w.Token(url.Values{"grant_type": {"refresh_token"}, "refresh_token": {rtok}}, auth, h.TokenOpts{})
+			}
+			final = func() (string, []byte, http.Header, string) {
+				return tokenOut(w.Token(url.Values{"grant_type": {"refresh_token"}, "refresh_token": {rtok}}, auth, h.TokenOpts{}))
+			}
+		case "revoke":
+			tr := redeem(authz("code").Code)
+			final = func() (string, []byte, http.Header, string) {
+				r := w.Revoke(url.Values{"token": {tr.Refresh}}, auth)
+				return r.Err.String(), r.Body, r.Header, ""
+			}
+		case "introspect":
+			tr := redeem(authz("code").Code)
+			final = func() (string, []byte, http.Header, string) {
+				r := w.IntrospectEndpoint(url.Values{"token": {tr.Access}}, auth)
+				return r.Err.String(), r.Body, r.Header, ""
+			}
+		case "device-poll", "device-replay":
+			dr := w.DeviceAuth(url.Values{"client_id": {"A"}, "scope": {"openid offline a"}}, auth, h.Consent{})
+			w.DeviceDecide(dr.UserCode, true, h.Consent{Session: h.NewSess("user-1")}, dr.DeviceCode)
+			poll := func() *h.TokenResult {
+				return w.Token(url.Values{"grant_type": {deviceGrant}, "device_code": {dr.DeviceCode}}, auth, h.TokenOpts{})
+			}
+			if scenario == "device-replay" {
+				poll()
+			}
+			final = func() (string, []byte, http.Header, string) { return tokenOut(poll()) }
+		case "par-push":
+			final = func() (string, []byte, http.Header, string) {
+				r := w.PAR(url.Values{"client_id": {"A"}, "response_type": {"code"}, "state": {"state-0123456789"}, "redirect_uri": {redirectURI}, "scope": {"a"}}, auth)
+				return r.Err.String(), r.Body, r.Header, ""
+			}
+		case "par-use":
+			pr := w.PAR(url.Values{"client_id": {"A"}, "response_type": {"code"}, "state": {"state-0123456789"}, "redirect_uri": {redirectURI}, "scope": {"a"}}, auth)
+			final = func() (string, []byte, http.Header, string) {
+				return authzOut(w.Authorize(url.Values{"client_id": {"A"}, "request_uri": {pr.RequestURI}}, h.Consent{}))
+			}
+		case "authorize-code":
+			final = func() (string, []byte, http.Header, string) { return authzOut(authz("code")) }
+		case "authorize-hybrid":
+			final = func() (string, []byte, http.Header, string) { return authzOut(authz("code id_token token")) }
+		case "password":
+			final = func() (string, []byte, http.Header, string) {
+				return tokenOut(w.Token(url.Values{"grant_type": {"password"}, "username": {"peter"}, "password": {"pw"}, "scope": {"offline a"}}, auth, h.TokenOpts{Session: h.NewSess("")}))
+			}
+		default:
+			final = func() (string, []byte, http.Header, string) {
+				return tokenOut(w.Token(url.Values{"grant_type": {"client_credentials"}, "scope": {"a"}}, auth, h.TokenOpts{}))
+			}
+		}
+		hits := 0
+		w.W.Before = func(c *h.Call) error {
+			if c.Method == failing {
+				hits++
+				return storageErr
+			}
+			return nil
+		}
+		answer, body, hdr, loc := final()
+		w.W.Before = nil
+		if w.Tx != nil && w.Tx.InTx() {
+			w.Tx.Abort()
+		}
+		h.Case(fmt.Sprintf("C20/storage-error/%s/%s/%s/%v/%v", scenario, failing, store, expose, legacy), hits > 0, func() any {
+			return map[string]any{"part": "A3", "scenario": scenario, "failing_storage_method": failing, "store": store, "debug_exposed": expose, "legacy_format": legacy, "answer": answer, "fault_hit": hits}
+		})
+		if hits > 0 {
+			h.Label("A3/fault-hit/" + scenario)
+		}
+		if expose {
+			return
+		}
+		var all strings.Builder
+		all.Write(body)
+		all.WriteString(loc)
+		for k, v := range hdr {
+			all.WriteString(k + ": " + strings.Join(v, ",") + "\n")
+		}
+		if dec, err := url.QueryUnescape(all.String()); err == nil {
+			all.WriteString(dec)
+		}
+		if strings.Contains(all.String(), canary) {
+			h.Violate(rt, "C20/storage-error-text-in-response", "scenario %s with %s failing (debug exposure off, legacy=%v, store %s): the storage error text reached the client\n answer: %s\n body: %.600s\n location: %.300s", scenario, failing, legacy, store, answer, body, loc)
+		}
+	})
 	h.MarkCompleted()
 }
 
